@@ -29,6 +29,23 @@ pub fn outcome(s: &Schema, src: &str, b: &[u8], sizes: Vec<usize>) -> String {
     })))
 }
 
+/// the same with `disable_recursion_limit()` (feature `unbounded_depth`; configuration tag `…+nolimit`), on a big stack
+#[cfg(feature = "ud")]
+pub fn outcome_nolimit(s: &Schema, src: &str, b: &[u8], sizes: Vec<usize>) -> String {
+    let (s, src, b) = (s.clone(), src.to_string(), b.to_vec());
+    std::thread::Builder::new().stack_size(256 << 20).spawn(move || {
+        show(catch_unwind(AssertUnwindSafe(|| -> Result<TVal, serde_json::Error> {
+            match src.as_str() {
+                "str" => { let mut de = Deserializer::from_str(std::str::from_utf8(&b).expect("utf8")); de.disable_recursion_limit(); let x = Seed(&s).deserialize(&mut de)?; de.end()?; Ok(x) }
+                "slice" => { let mut de = Deserializer::from_slice(&b); de.disable_recursion_limit(); let x = Seed(&s).deserialize(&mut de)?; de.end()?; Ok(x) }
+                _ => { let mut de = Deserializer::from_reader(Chunked::new(&b, sizes)); de.disable_recursion_limit(); let x = Seed(&s).deserialize(&mut de)?; de.end()?; Ok(x) }
+            }
+        })))
+    }).unwrap().join().unwrap_or("PANIC".into())
+}
+#[cfg(not(feature = "ud"))]
+pub fn outcome_nolimit(s: &Schema, src: &str, b: &[u8], sizes: Vec<usize>) -> String { outcome(s, src, b, sizes) }
+
 fn class_of(o: &str) -> &'static str {
     if o.starts_with("OK:") { return "ok"; }
     if o == "PANIC" { return "panic"; }
@@ -50,7 +67,7 @@ fn chunks(r: &mut Rng) -> Vec<usize> { match r.below(4) { 0 => vec![1], 1 => vec
 
 pub fn emit_tt(sink: &mut Sink, cfg: &str, s: &Schema, se: &str, src: &str, b: &[u8], r: &mut Rng, tag: &str) {
     if src == "str" && std::str::from_utf8(b).is_err() { return; }
-    let o = outcome(s, src, b, chunks(r));
+    let o = if cfg.contains("nolimit") { outcome_nolimit(s, src, b, chunks(r)) } else { outcome(s, src, b, chunks(r)) };
     sink.case("tt", &[cfg, src, se, &hexf(b)], &o, &format!("{}:{}:{}", if tag == "mut" { "mut" } else { "text" }, schema_kind(s), class_of(&o)), b.len() > 1);
 }
 
@@ -395,11 +412,78 @@ pub fn run_rfaults(sink: &mut Sink, thorough: bool, seed: u64) {
     }
 }
 
+// ---------------------------------------------------------------- C14: depth accounting of every container kind
+
+/// one layer of a depth tower around `inner`: (schema, text before, text after, containers it opens)
+fn layer(kind: usize, inner: Schema) -> (Schema, &'static str, &'static str, usize) {
+    match kind {
+        0 => (Schema::Seq(Box::new(inner)), "[", "]", 1),
+        1 => (Schema::Tuple(vec![inner]), " [ ", "]", 1),
+        2 => (Schema::Map(KeyKind::Str, Box::new(inner)), "{\"k\":", "}", 1),
+        3 => (Schema::Struct(vec![("x".into(), inner)], false), "{\"x\":", "}", 1),
+        4 => (Schema::Struct(vec![("x".into(), inner)], true), "[", "]", 1),
+        5 => (Schema::Enum(vec![("A".into(), Shape::Newtype(Box::new(inner)))]), "{\"A\":", "}", 1),
+        6 => (Schema::Enum(vec![("T".into(), Shape::Tuple(vec![inner, Schema::Bool]))]), "{\"T\":[", ",true]}", 2),
+        7 => (Schema::Enum(vec![("S".into(), Shape::Struct(vec![("x".into(), inner)]))]), "{\"S\":{\"x\":", "}}", 2),
+        8 => (Schema::Option(Box::new(Schema::Newtype(Box::new(Schema::Seq(Box::new(inner)))))), "[", "]", 1),
+        _ => (Schema::Map(KeyKind::Int(IntTy::U8), Box::new(inner)), "{\"7\" :", " }", 1),
+    }
+}
+
+/// `n` layers (kind 10 = the kinds in rotation) around a leaf: schema, text, containers opened by the layers
+fn tower(kind: usize, n: usize, leaf: &Schema, leaf_text: &str) -> (Schema, String, usize) {
+    let mut s = leaf.clone(); let mut pre: Vec<&str> = vec![]; let mut post: Vec<&str> = vec![]; let mut levels = 0;
+    for i in (0..n).rev() {
+        let k = if kind == 10 { i % 10 } else { kind };
+        let (s2, a, b, l) = layer(k, s); s = s2; pre.push(a); post.push(b); levels += l;
+    }
+    pre.reverse();
+    (s, format!("{}{}{}", pre.concat(), leaf_text, post.concat()), levels)
+}
+
+/// C14 (typed targets): towers of every container kind around the recursion limit — texts that nest 1, 2 and 125..130
+/// containers counting the leaf's own (`Vec<u8>` from an array, a nested `Value`, skipped content) — complete, cut before the
+/// closers and cut in the middle, from slice, reader and str; the crate's outcome (value / error code, category, line,
+/// column) is compared with the typed model (op `tt`). With `unbounded_depth` the same towers (and 200 levels) are also
+/// run with `disable_recursion_limit()` against the model with `limitOff` (tag `ud+nolimit`).
+pub fn run_tdepth(sink: &mut Sink, _thorough: bool, seed: u64) {
+    let mut r = Rng::new(seed ^ 0x7464);
+    let cfg = cfg_tag();
+    let leaves: [(Schema, &str, usize); 6] = [(Schema::Bool, "true", 0), (Schema::Bytes, "[1,2]", 1), (Schema::Any, "[{\"a\":[1]}]", 3), (Schema::Ignored, "[[[[{}]]]]", 0),
+        (Schema::Seq(Box::new(Schema::Bool)), "[]", 1), (Schema::Any, "7", 0)];
+    let mut cfgs: Vec<String> = vec![cfg.clone()];
+    if cfg!(feature = "ud") { cfgs.push(format!("{}+nolimit", cfg)); }
+    for c in cfgs.iter() {
+        let nolimit = c.contains("nolimit");
+        for kind in 0..=10usize {
+            let per = layer(if kind == 10 { 0 } else { kind }, Schema::Bool).3;
+            let mut ns: Vec<usize> = if per == 2 { vec![1, 2, 62, 63, 64, 65] } else { vec![1, 2, 63, 124, 125, 126, 127, 128, 129] };
+            if nolimit { ns = if per == 2 { vec![63, 64, 100] } else { vec![127, 128, 200] }; }
+            for n in ns {
+                for (leaf, lt, _) in leaves.iter() {
+                    let (s, text, _levels) = tower(kind, n, leaf, lt);
+                    let se = enc_schema(&s);
+                    let t = text.as_bytes();
+                    let cut1 = text.len() - text.trim_end_matches(|ch| ch == ']' || ch == '}' || ch == ' ').len();
+                    let variants: [&[u8]; 3] = [t, &t[..t.len() - cut1], &t[..t.len() / 2]];
+                    for (vi, v) in variants.iter().enumerate() {
+                        if vi > 0 && nolimit { continue; }
+                        for src in ["slice", "reader", "str"] {
+                            if src == "str" && vi > 0 { continue; }
+                            emit_tt(sink, c, &s, &se, src, v, &mut r, "tdepth");
+                        }
+                    }
+                }
+            }
+        }
+    }
+}
+
 pub fn replay(sink: &mut Sink, toks: &[&str]) {
     let cfg = cfg_tag();
     let mut r = Rng::new(1);
     match toks[0] {
-        "tt" if toks.len() >= 5 => { let s = dec_schema(toks[3]); emit_tt(sink, &cfg, &s, toks[3], toks[2], &unhex(toks[4]), &mut r, "replay"); }
+        "tt" if toks.len() >= 5 => { let s = dec_schema(toks[3]); let c = if toks[1].contains("nolimit") { toks[1].to_string() } else { cfg.clone() }; emit_tt(sink, &c, &s, toks[3], toks[2], &unhex(toks[4]), &mut r, "replay"); }
         "tt3" if toks.len() >= 4 => { let s = dec_schema(toks[2]); emit_tt3(sink, &cfg, &s, toks[2], &unhex(toks[3]), &mut r, "replay"); }
         "pfxs" if toks.len() >= 5 => { let s = dec_schema(toks[3]); emit_pfxs(sink, &cfg, &s, toks[2], &unhex(toks[4]), "replay"); }
         "rfaults" if toks.len() >= 6 => {
